@@ -210,7 +210,7 @@ def parse_rfc3339(s: Any) -> float | None:
     else:
         sign = 1 if off[0] == "+" else -1
         delta = sign * (int(off[1:3]) * 3600 + int(off[4:6]) * 60)
-    return round(base + frac - delta, 3)
+    return round(base + frac - delta, 6)
 
 
 def tz_offset_seconds(tz: str) -> int:
@@ -275,6 +275,25 @@ def run_cli(argv: list[str]) -> dict:
             exc = e
             code = f"raised {type(e).__name__}: {e}"
     return {"code": code, "stdout": out.getvalue(), "stderr": err.getvalue(), "exc": exc}
+
+
+def cli_value(v: Any) -> str:
+    """Text for `--context key=<text>`: the CLI parses it as YAML, so non-finite floats need YAML's spelling (JSON's `NaN`
+    would arrive as the string 'NaN')."""
+    def enc(o):
+        if isinstance(o, float):
+            if o != o:
+                return ".nan"
+            if o in (float("inf"), float("-inf")):
+                return ".inf" if o > 0 else "-.inf"
+        return None
+    special = enc(v)
+    if special is not None:
+        return special
+    import yaml
+    if isinstance(v, (list, dict)):
+        return yaml.safe_dump(v, default_flow_style=True, width=10_000).strip()
+    return json.dumps(v)
 
 
 def trace_cfg(mode: str, detail: str, name: str = "trace") -> dict:
